@@ -185,7 +185,19 @@ def show_record(r, idx):
              ",".join(hx(l) for l in r.summary) if r.summary else "_", str(len(es))] + [e.show() for e in es]
     return " ".join(parts)
 
-def reference(doc, today, sort, flags, semantics="all"):
+JSON_TYPE = {"dur": "duration", "range": "range", "open": "open_range"}
+
+def show_json_record(r, idx):
+    """the same selection as `klog json` shows it (fields that need no evaluation)"""
+    parts = ["J", hx(r.date_text()), str(r.should.mins()) if r.should is not None else "0", hx("\n".join(r.summary)), str(len(idx))]
+    for i in idx:
+        e = r.entries[i]
+        start = str(e.a.off) if e.kind != "dur" else "_"
+        end = str(e.b.off) if e.kind == "range" else "_"
+        parts.append(":".join([JSON_TYPE[e.kind], str(e.minutes()), start, end, hx("\n".join(e.summary_lines()))]))
+    return " ".join(parts)
+
+def reference(doc, today, sort, flags, semantics="all", view="print"):
     """the records and entries the property says are selected, as the canonical result line.
        semantics "all": every clause given must hold (the property);
        "override": of several clauses for the same bound only the one FilterArgs.ApplyFilter keeps (used solely
@@ -193,9 +205,13 @@ def reference(doc, today, sort, flags, semantics="all"):
     preds, qtags, etype = [], [], None
     for name, value in flags:
         if name == "tag":
-            t = read_tag(value)
-            if t is None: return "argerr"
-            qtags.append(t)
+            # the flag takes a comma-separated list (`--tag=TAG,...` in the command's help)
+            pieces = value.split(",")
+            if pieces[-1] == "" and len(pieces) > 1: pieces.pop()
+            for piece in pieces:
+                t = read_tag(piece)
+                if t is None: return "argerr"
+                qtags.append(t)
         elif name == "entry-type":
             etype = read_entry_type(value)
             if etype is None: return "argerr"
@@ -221,7 +237,7 @@ def reference(doc, today, sort, flags, semantics="all"):
             idx = list(range(len(r.entries)))
         elif not idx:
             continue
-        selected.append((r.ymd, show_record(r, idx)))
+        selected.append((r.ymd, show_record(r, idx) if view == "print" else show_json_record(r, idx)))
     if sort is not None:
         sign = SORTS[sort]
         selected.sort(key=lambda t: t[1])                         # canonical order inside a date ...
@@ -330,10 +346,13 @@ def near(rng, anchor, inside=False):
     o = max(LO + (1 if inside else 0), min(HI - (1 if inside else 0), o))
     return from_ord(o)
 
-def make_doc(rng, anchor, max_records=6, max_entries=5, big=False):
+def make_doc(rng, anchor, max_records=6, max_entries=5, big=False, nrec=None):
     d = specgen.Doc(rng, max_records=max_records, max_entries=max_entries)
+    if not d.records and rng.random() < 0.9:
+        d.records = [specgen.Record(rng, max_entries) for _ in range(rng.choice([1, 2, 3, 4, 6, 8]))]
+        d.gaps = [[rng.choice(specgen.BLANKS) for _ in range(rng.choice([1, 1, 2]))] for _ in d.records]
     if big:
-        d.records = [specgen.Record(rng, 2) for _ in range(rng.randint(13, 40))]
+        d.records = [specgen.Record(rng, 2) for _ in range(nrec or rng.randint(13, 40))]
         d.gaps = [[""] for _ in d.records]
     vocab = [(rng.choice(NAMES), rng.choice(VALUES)) for _ in range(rng.choice([2, 3, 4]))]
     pool = [near(rng, anchor) for _ in range(rng.choice([1, 2, 3, 5]))]        # few distinct dates: duplicates and ties for --sort
@@ -392,41 +411,64 @@ def date_flags(rng, doc, anchor, today, conflicts):
     """date clauses; conflicts=False: at most one clause per bound (lower, upper, exact date)"""
     rd = [r.ymd for r in doc.records] or [anchor]
     def qdate():
-        t = rng.choice(rd) if rng.random() < 0.6 else near(rng, rng.choice(rd))
+        t = rng.choice(rd) if rng.random() < 0.7 else near(rng, rng.choice(rd))
         if rng.random() < 0.15: t = from_ord(max(LO + 1, min(HI - 1, to_ord(*t) + rng.choice([-1, 1]))))
         return t
-    def inner(t):      # --after / --before need the neighbour to be a date
-        return from_ord(max(LO + 1, min(HI - 1, to_ord(*t))))
+    def inner(o):      # --after / --before need the neighbour to be a date
+        return from_ord(max(LO + 1, min(HI - 1, o)))
     fl = []
     k = rng.random()
-    if k < 0.12: pass
-    elif k < 0.30: fl.append((rng.choice(["since", "after"]), None))
-    elif k < 0.45: fl.append((rng.choice(["until", "before"]), None))
-    elif k < 0.62: fl += [(rng.choice(["since", "after"]), None), (rng.choice(["until", "before"]), None)]
-    elif k < 0.80: fl.append(("period", period_pattern(rng, qdate())))
+    if k < 0.22: pass
+    elif k < 0.36: fl.append((rng.choice(["since", "after"]), None))
+    elif k < 0.50: fl.append((rng.choice(["until", "before"]), None))
+    elif k < 0.65: fl += [(rng.choice(["since", "after"]), None), (rng.choice(["until", "before"]), None)]
+    elif k < 0.82: fl.append(("period", period_pattern(rng, qdate())))
     else: fl.append((rng.choice(list(SHORTCUTS)), None))
-    if rng.random() < 0.25:
+    if rng.random() < 0.18:
         fl.append((rng.choice(["date", "date", "today", "yesterday", "tomorrow"]), None))
     if conflicts:
         for _ in range(rng.choice([1, 1, 2, 3])):
             fl.append((rng.choice(["since", "after", "until", "before", "period", "date", "today", "yesterday", "tomorrow"] + list(SHORTCUTS)), None))
     out, seen = [], set()
+    lo_d, hi_d = sorted([qdate(), qdate()])
+    if rng.random() < 0.2: lo_d, hi_d = hi_d, lo_d          # an empty interval now and then
     for n, v in fl:
         if n in seen: continue
         seen.add(n)
-        if n in ("since", "until", "date"): v = spelled_date(rng, qdate())
-        elif n in ("after", "before"): v = spelled_date(rng, inner(qdate()))
+        if n == "since": v = spelled_date(rng, lo_d)
+        elif n == "until": v = spelled_date(rng, hi_d)
+        elif n == "date": v = spelled_date(rng, qdate())
+        elif n == "after": v = spelled_date(rng, inner(to_ord(*lo_d) - rng.choice([0, 1, 1])))
+        elif n == "before": v = spelled_date(rng, inner(to_ord(*hi_d) + rng.choice([0, 1, 1])))
         elif n == "period" and v is None: v = period_pattern(rng, qdate())
         out.append((n, v))
     return out
+
+def pick_today(rng, rd, flags):
+    """the clock: placed so that the relative clauses hit, or just miss, dates of records"""
+    names = [n for n, _ in flags]
+    base = rng.choice(rd)
+    o = to_ord(*base)
+    if "yesterday" in names: o += rng.choice([1, 1, 1, 0, 2])
+    elif "tomorrow" in names: o -= rng.choice([1, 1, 1, 0, 2])
+    elif "today" in names: o += rng.choice([0, 0, 0, 1, -1])
+    else:
+        sc = winning_shortcut(names)
+        if sc:
+            unit, back = SHORTCUTS[sc]
+            span = {"week": 7, "month": 30, "quarter": 91, "year": 365}[unit]
+            o += rng.choice([0, 1, -1, 3, -3, span // 2, -(span // 2)]) - back * rng.choice([span, span, span - 1, span + 1, 1, span // 2])
+        else:
+            o += rng.choice(OFFSETS)
+    return from_ord(max(LO + 1, min(HI - 1, o)))
 
 def has_conflict(flags):
     names = [n for n, _ in flags]
     return any(sum(1 for n in names if n in slot) > 1 for slot in (LOWER, UPPER, AT))
 
-def request(today, sort, flags, doc):
+def request(today, sort, flags, doc, cmd="query-run"):
     toks = [n if v is None else n + ":" + hx(v) for n, v in flags]
-    return " ".join(["query-run", str(today[0]), str(today[1]), str(today[2]), hx(sort) if sort else "-", str(len(toks))] + toks + [hx(doc.render())])
+    return " ".join([cmd, str(today[0]), str(today[1]), str(today[2]), hx(sort) if sort else "-", str(len(toks))] + toks + [hx(doc.render())])
 
 EXPECT = {}            # request -> result line the property demands
 OVERRIDE = {}          # request -> result line under the "last clause wins" reading (recognises K13a)
@@ -436,13 +478,32 @@ def build(rng, conflicts=False, big=False):
     anchor = rng.choice(ANCHORS) if rng.random() < 0.8 else (rng.randrange(0, 10000), rng.randint(1, 12), rng.randint(1, 28))
     doc, vocab = make_doc(rng, anchor, big=big)
     rd = [r.ymd for r in doc.records] or [anchor]
-    today = near(rng, rng.choice(rd), inside=True)          # 0000-01-02 .. 9999-12-30
-    if rng.random() < 0.3: today = from_ord(max(LO + 1, min(HI - 1, to_ord(*rng.choice(rd)))))
-    flags = date_flags(rng, doc, anchor, today, conflicts)
-    for _ in range(rng.choice([0, 0, 0, 1, 1, 2, 3])):
-        flags.append(("tag", query_tag(rng, vocab)))
+    flags = date_flags(rng, doc, anchor, None, conflicts)
+    today = pick_today(rng, rd, flags)                       # 0000-01-02 .. 9999-12-30
+    ntags = rng.choice([0, 0, 0, 1, 1, 1, 2, 2, 3])
+    carried = [r.c13_tags + e.c13_tags for r in doc.records for e in r.entries if r.c13_tags + e.c13_tags]
+    if ntags >= 2 and carried and rng.random() < 0.7:
+        # tags one entry carries together with its record: the conjunction can be met
+        src = rng.choice(carried)
+        for _ in range(ntags):
+            n_, v_ = rng.choice(src)
+            flags.append(("tag", query_tag(rng, [(n_, v_)])))
+    else:
+        for _ in range(ntags):
+            flags.append(("tag", query_tag(rng, vocab)))
     if rng.random() < 0.4:
-        flags.append(("entry-type", rng.choice(TYPE_SPELLINGS)))
+        sp = rng.choice(TYPE_SPELLINGS)
+        kinds = [e for r in doc.records for e in r.entries]
+        if kinds and rng.random() < 0.5:
+            # a type that occurs in the file
+            e = rng.choice(kinds)
+            want = {"range": ["range"], "open": ["open"], "dur": ["dur", "neg" if e.kind == "dur" and e.d.mins() < 0 else "pos"]}[e.kind]
+            sp = rng.choice([t for t in TYPE_SPELLINGS if read_entry_type(t) in want])
+        flags.append(("entry-type", sp))
+    tagv = [v for n_, v in flags if n_ == "tag"]
+    if len(tagv) >= 2 and rng.random() < 0.25:
+        # the same tags as one comma-separated list
+        flags = [(n_, v) for n_, v in flags if n_ != "tag"] + [("tag", ",".join(tagv) + rng.choice(["", "", ","]))]
     rng.shuffle(flags)
     sort = rng.choice([None, None, None, "asc", "desc", "ASC", "DESC"]) if not big else rng.choice(["asc", "asc", "desc", "ASC", "DESC"])
     return doc, today, sort, flags
@@ -457,7 +518,7 @@ def edge_shortcut(today, flags):
     return lo < LO or hi > HI
 
 def gen_filter(tier, rng):
-    n = 2300 if tier == "quick" else 230000
+    n = 2300 if tier == "quick" else 200000
     out = []
     while len(out) < n:
         doc, today, sort, flags = build(rng, big=(rng.random() < 0.02))
@@ -469,8 +530,59 @@ def gen_filter(tier, rng):
         out.append(req)
     return out
 
+def gen_json(tier, rng):
+    n = 500 if tier == "quick" else 40000
+    out = []
+    while len(out) < n:
+        doc, today, sort, flags = build(rng, big=(rng.random() < 0.02))
+        if has_conflict(flags):
+            continue
+        req = request(today, sort, flags, doc, cmd="query-json")
+        EXPECT[req] = reference(doc, today, sort, flags, view="json")
+        INFO[req] = (today, flags)
+        out.append(req)
+    return out
+
+def gen_sort(tier, rng):
+    """--sort alone on files of 13..120 records with few distinct dates: Go's sort.Slice leaves insertion sort behind
+       (n > 12), picks pivots by ninther (n >= 50) and meets many ties under klog's non-strict comparator"""
+    n = 120 if tier == "quick" else 6000
+    out = []
+    while len(out) < n:
+        anchor = rng.choice(ANCHORS)
+        nrec = rng.choice([13, 14, 20, 33, 49, 50, 51, 64, 100, 120, rng.randint(13, 120)])
+        doc, vocab = make_doc(rng, anchor, big=True, nrec=nrec)
+        if rng.random() < 0.3:
+            # already sorted / reversed / all equal inputs
+            k = rng.randrange(3)
+            if k == 0: doc.records.sort(key=lambda r: r.ymd)
+            elif k == 1: doc.records.sort(key=lambda r: r.ymd, reverse=True)
+            else:
+                for r in doc.records: r.ymd = doc.records[0].ymd
+        sort = rng.choice(["asc", "desc", "ASC", "DESC"])
+        flags = [("tag", query_tag(rng, vocab))] if rng.random() < 0.15 else []
+        today = (2020, 6, 15)
+        cmd = "query-json" if rng.random() < 0.3 else "query-run"
+        req = request(today, sort, flags, doc, cmd=cmd)
+        EXPECT[req] = reference(doc, today, sort, flags, view="json" if cmd == "query-json" else "print")
+        INFO[req] = (today, flags)
+        out.append(req)
+    return out
+
+def gen_aliasing(tier, rng):
+    """service.Filter called directly on parsed records with one tag clause: does the caller's slice change?"""
+    n = 100 if tier == "quick" else 2000
+    out = []
+    while len(out) < n:
+        doc, today, sort, flags = build(rng)
+        tags = [v for k, v in flags if k == "tag"]
+        if not tags or not doc.records:
+            continue
+        out.append("query-alias %s %s" % (hx(tags[0]), hx(doc.render())))
+    return out
+
 def gen_override(tier, rng):
-    n = 500 if tier == "quick" else 50000
+    n = 400 if tier == "quick" else 40000
     out = []
     while len(out) < n:
         doc, today, sort, flags = build(rng, conflicts=True)
@@ -486,13 +598,13 @@ def gen_override(tier, rng):
 BAD_VALUES = {
     "date": ["2020-1-01", "2020-01/01", "2020-02-30", "2021-02-29", "2020-13-01", "2020-00-10", "20200101", "today", "2020-01-01 ", "1900-02-29"],
     "period": ["2020-13", "2020-00", "2020-Q5", "2020-Q0", "2020-W00", "2021-W53", "2020-W54", "20-01", "2020-1", "2020-W", "2020-q1", "2020-w01", "2020-01-01", "202"],
-    "tag": ["a b", "#", "a=b c", "=x", "a=\"x", "#a#b", "a.b", "a=x'y\"z"],
+    "tag": ["a b", "#", "a=b c", "=x", "a=\"x", "#a#b", "a.b", "a=x'y\"z", "a,,b", ",", ",a", "a=\"x,y\""],
     "entry-type": ["ranges", "open range", "positive", "duration-", "time", "openrange"],
 }
 
 def gen_arguments(tier, rng):
     """command lines one of whose values no decoder accepts (the other clauses are fine), and unusual --sort values"""
-    n = 200 if tier == "quick" else 20000
+    n = 200 if tier == "quick" else 15000
     out = []
     while len(out) < n:
         doc, today, sort, flags = build(rng)
@@ -566,10 +678,21 @@ def suites():
                    "(dates clustered around year/ISO-week/quarter/month boundaries, leap days, years 0000 and 9999; duplicates; query dates equal "
                    "to record dates and their neighbours; tags with/without values, quoted values, mixed case, in record and entry summaries; "
                    "2% files of 13-40 records for --sort); clock in 0000-01-02..9999-12-30; non-trivial = at least one record selected"),
+        Suite("json", gen_json, oracle=oracle, nontrivial=nontrivial,
+              rule="as filter, through `klog json`: date text, should-total minutes, summaries, entry type / minutes / start / end of every "
+                   "selected record and entry; non-trivial = at least one record selected"),
+        Suite("sort", gen_sort, oracle=oracle, nontrivial=nontrivial,
+              rule="--sort asc|desc|ASC|DESC alone (15% with one --tag) on files of 13..120 records with few distinct dates, 30% already "
+                   "sorted / reversed / all on one date, through print and json; compared: the date sequence and per date the multiset of "
+                   "records (C13_sort_spec_determines); non-trivial = at least one record"),
         Suite("override", gen_override, oracle=oracle, nontrivial=nontrivial,
               rule="as filter, with several clauses competing for one bound; non-trivial = at least one record selected"),
         Suite("arguments", gen_arguments, oracle=oracle, nontrivial=lambda r, o: o == "argerr",
               rule="one unacceptable value (date, period, tag, entry type, --sort) among otherwise fine clauses; non-trivial = rejected"),
+        Suite("aliasing", gen_aliasing, model=False, nontrivial=lambda r, o: o.startswith("input-altered"),
+              rule="NOTE, not a check of the property: service.Filter(rs, {Tags}) called directly narrows records with SetEntries on the objects "
+                   "of the caller's slice; the distribution counts how often the INPUT was altered (input-altered) — no klog command reads the "
+                   "unfiltered list again, so nothing is observable at `klog print|json`"),
         Suite("edges", gen_edges, nontrivial=lambda r, o: o == "crash",
               rule="clock or query date on the first/last day of the calendar (outside the property's quantifier): model = implementation"),
     ]
